@@ -157,16 +157,17 @@ func (w *World) monResendOrder(h []ev) {
 // C20: nothing before an accepted CONNECT; every request gets its response
 func (w *World) monRequestResponse(h []ev) {
 	type cs struct {
-		first      packet.Generic
-		accepted   bool
-		connacks   int
-		sentBefore int
-		pendingSub map[packet.ID]*packet.Subscribe
-		pendingUns map[packet.ID]bool
-		pings      int
-		closed     bool
-		backend    int
-		setupDone  bool
+		first        packet.Generic
+		accepted     bool
+		connacks     int
+		sentBefore   int
+		pendingSub   map[packet.ID]*packet.Subscribe
+		pendingUns   map[packet.ID]bool
+		pings        int
+		closed       bool
+		backend      int
+		setupDone    bool
+		unauthorised bool // its CONNECT carried credentials the backend was not configured with
 	}
 	st := map[int]*cs{}
 	get := func(c int) *cs {
@@ -198,6 +199,11 @@ func (w *World) monRequestResponse(h []ev) {
 			}
 			if s.first == nil {
 				s.first = e.pkt
+				if cp, ok := e.pkt.(*packet.Connect); ok && w.creds != nil {
+					if pw, known := w.creds[cp.Username]; !known || pw != cp.Password {
+						s.unauthorised = true
+					}
+				}
 				continue
 			}
 			if !s.accepted && !w.concurrent {
@@ -223,6 +229,9 @@ func (w *World) monRequestResponse(h []ev) {
 				}
 				if p.ReturnCode == packet.ConnectionAccepted {
 					s.accepted = true
+					if s.unauthorised {
+						w.hit("unauthorised-accepted", fmt.Sprintf("connection %d presented credentials that are not configured and was accepted", e.conn))
+					}
 				}
 			default:
 				if !s.accepted {
@@ -524,6 +533,9 @@ func (w *World) monDelivery(h []ev) {
 				continue
 			}
 			tag := string(p.Message.Payload)
+			if tag == "" && p.Message.Retain && !p.Dup {
+				w.hit("retained-empty-delivered", fmt.Sprintf("connection %d was sent a retained message with an empty payload on %q: an empty retained publish clears the topic, it is never retained itself", e.conn, p.Message.Topic))
+			}
 			if tag == "" {
 				continue // empty payloads carry no tag (a retained-clear publish reaches current subscribers)
 			}
@@ -771,7 +783,9 @@ func (w *World) monWill(h []ev) {
 			s.closed = true
 		case "bpublish":
 			p := e.pkt.(*packet.Publish)
-			if s.will != nil && string(p.Message.Payload) == string(s.will.Payload) && p.Message.Topic == s.will.Topic {
+			// the will goes out during cleanup, i.e. after the connection was closed (an ordinary publish of the same client
+			// may carry the same topic and payload, e.g. an empty retained one)
+			if s.will != nil && s.closed && string(p.Message.Payload) == string(s.will.Payload) && p.Message.Topic == s.will.Topic {
 				s.wills++
 				if p.Message.QOS != s.will.QOS || p.Message.Retain != s.will.Retain {
 					w.hit("will-altered", fmt.Sprintf("connection %d: will published with qos %d retain %v, supplied qos %d retain %v", e.conn, p.Message.QOS, p.Message.Retain, s.will.QOS, s.will.Retain))
